@@ -134,12 +134,16 @@ var ctorResultRe = regexp.MustCompile(`NewVersion\(.*?\)#0`)
 var nestedCtorRe = regexp.MustCompile("\\{&NewVersion\\(`([^`]*)`\\)#0\\}")
 var ctorArgRe = regexp.MustCompile(`^NewVersion\((.*)\)#[01]`)
 
+var cutPartRe = regexp.MustCompile(`Cut\(([^()]*(?:\([^()]*\))?[^()]*)\)#([01])`)
+
 func normTemplate(s string) string {
 	// the parsed base
 	s = strings.ReplaceAll(s, "NewVersion(version)#0", "V")
 	s = nestedCtorRe.ReplaceAllString(s, "$1")
 	s = ctorResultRe.ReplaceAllString(s, "V")
 	s = strings.ReplaceAll(s, `c.version`, "V")
+	// strings.Cut(x, sep) is the two-part split of x: before = Split(x,sep)[0], after = Split(x,sep)[1]
+	s = cutPartRe.ReplaceAllString(s, `Split($1)[$2]`)
 	for i := 0; i < 4; i++ {
 		s = strings.ReplaceAll(s, fmt.Sprintf(`Atoi(Split(rangeStr,".")[%d])#0`, i), fmt.Sprintf("N%d", i))
 	}
